@@ -17,10 +17,8 @@ import (
 func init() { register("C16", checkC16) }
 
 var c16Assumed = map[string]string{
-	"vflow.mirrorIPFIX:K2:nonnil(msg.raddr)":           "A-raddr: every message queued for mirroring carries the address ReadFromUDP returned with a nil error (rule R16.2 checks the queued message is built from that read)",
-	"vflow.mirrorSFlow:K2:nonnil(msg.raddr)":           "A-raddr",
-	"vflow.mirrorIPFIXDispatcher:K2:nonnil(msg.raddr)": "A-raddr",
-	"vflow.mirrorSFlowDispatcher:K2:nonnil(msg.raddr)": "A-raddr",
+	// normally discharged by the source-address provenance hook (oblrun.go: sourceAddrFields)
+	"vflow.mirror*:K2:nonnil(*.raddr)": "A-raddr: every message queued for mirroring carries the address ReadFromUDP returned with a nil error",
 }
 
 func mirrorLoops(prog *core.Program) (loops []*ssa.Function, dispatchers []*ssa.Function) {
@@ -49,6 +47,7 @@ func mirrorLoops(prog *core.Program) (loops []*ssa.Function, dispatchers []*ssa.
 func checkC16(rep *core.Report) {
 	rep.Explanation = "The mirror path is analysed like the decode path: every panic-capable instruction of the dispatcher, the mirror loops and package mirror's header helpers (in the loops' calling context, for IPv4 and IPv6 targets separately) is discharged for any payload length and either form of the exporter address; the payload buffer handed to the mirror loop is the worker's own copy and is released exactly once after its last use, with the size the pool was created with; the rewritten header fields are written at the offsets the IPv4/UDP formats assign from the right quantities (total length = 20 + 8 + payload, UDP length = 8 + payload, both from the same payload length; source = exporter address, destination = configured address and port, protocol 17, version/IHL 0x45); the slice sent is headers + payload; the worker's mirror branch does not write the datagram it decodes."
 	rep.Assume("A-int: int is 64 bits; A-config: option values are sane (sizes non-negative)")
+	rep.Trust("(*net.UDPConn).ReadFromUDP returns a non-nil source address together with a nil error; the queued message types take their address only from that result on the nil-error path (checked: oblrun.go sourceAddrFields)")
 	prog := rep.Prog
 	r1 := rep.Rule("R16.1", "no panic-capable instruction on the mirror path can fail", 55)
 	r2 := rep.Rule("R16.2", "mirror buffers: own copy, released once after last use, with the pool's size", 4)
